@@ -1,7 +1,9 @@
 ------------------------------ MODULE HookConfig ------------------------------
 (***************************************************************************************************)
 (* Reference semantics of the hook configuration format, configVersion v1, written from            *)
-(* docs/src/HOOKS.md, BINDING_VALIDATING.md, BINDING_CONVERSION.md and the statement of C10.       *)
+(* docs/src/HOOKS.md, BINDING_VALIDATING.md, BINDING_CONVERSION.md and the statement of C10, and   *)
+(* of the legacy format (a document without configVersion: onStartup, schedule, onKubernetesEvent; *)
+(* section "the legacy format" below).                                                             *)
 (*                                                                                                 *)
 (* A document is the JSON/YAML tree itself: a record that has exactly the declared fields          *)
 (* (optional fields are simply absent), sequences for arrays.  Every scalar is a string; the       *)
@@ -244,6 +246,88 @@ GrammarFault(doc) ==
   IN IF bad = {} THEN "ok" ELSE parts[CHOOSE i \in bad : \A j \in bad : i <= j]
 
 ---------------------------------------------------------------------------------------------------
+(* the legacy format ("v0"): a document WITHOUT configVersion.  It has three sections:                *)
+(*   onStartup: ORDER                                                                                  *)
+(*   schedule:          [{name, crontab, allowFailure}]                                                *)
+(*   onKubernetesEvent: [{name, kind, event: [add|update|delete], selector (a label selector),         *)
+(*                        objectName, namespaceSelector: {matchNames, any}, jqFilter, allowFailure}]   *)
+(* The repository has no prose for it any more; the reference is the statement applied to that format: *)
+(* every declared binding in declared order, every declared option in the effective configuration,     *)
+(* the defaults of the statement (queue `main` - the format has no queues -, allowFailure false, all   *)
+(* three watch events, default binding names `schedule` / `onKubernetesEvent`), no first               *)
+(* Synchronization (the format predates it: kemtypes.ModeV0 "No first Synchronization, only Event"),   *)
+(* full objects kept (the legacy binding context is rendered from the object), no groups / snapshots.  *)
+(* objectName is the name selector with that one name, selector the label selector, namespaceSelector  *)
+(* {matchNames} the namespace name selector, {any: true} (or nothing) all namespaces.                  *)
+
+IsV0(doc) == ~Has(doc, "configVersion")
+
+V0TopFields == {"onStartup", "schedule", "onKubernetesEvent"}
+V0Events    == {"add", "update", "delete"}
+V0EventName(e) == CASE e = "add" -> "Added" [] e = "update" -> "Modified" [] e = "delete" -> "Deleted"
+
+ScheduleV0Fault(b) == FirstBad(<<
+  <<DOMAIN b \subseteq {"name", "crontab", "allowFailure"}, "unknown-field">>,
+  <<Has(b, "crontab"), "crontab-missing">>,
+  <<Has(b, "crontab") => IsStr(b.crontab), "crontab-type">>,
+  <<Has(b, "crontab") /\ IsStr(b.crontab) => b.crontab \in GoodCrontab, "crontab-invalid">>,
+  <<Has(b, "name") => IsStr(b.name), "name-type">>,
+  <<Has(b, "allowFailure") => IsBool(b.allowFailure), "allowFailure-type">> >>)
+
+(* {any: true} | {matchNames: [...]} | {matchNames: [...], any: false}; matchNames next to any: true, and   *)
+(* any: false without names, have no evident meaning and are not part of the domain                         *)
+NsSelV0OK(s) ==
+  /\ DOMAIN s \subseteq {"matchNames", "any"} /\ DOMAIN s # {}
+  /\ Has(s, "matchNames") => StrSeqOK(s.matchNames, 1)
+  /\ Has(s, "any") => IsBool(s.any)
+  /\ Has(s, "any") /\ IsBool(s.any) => (Bool(s.any) <=> ~Has(s, "matchNames"))
+
+KubeV0Fields == {"name", "kind", "event", "selector", "objectName", "namespaceSelector", "jqFilter", "allowFailure"}
+KubeV0Fault(b) == FirstBad(<<
+  <<DOMAIN b \subseteq KubeV0Fields, "unknown-field">>,
+  <<Has(b, "kind"), "kind-missing">>,
+  <<Has(b, "kind") => IsStr(b.kind), "kind-type">>,
+  <<Has(b, "name") => IsStr(b.name), "name-type">>,
+  <<Has(b, "event") => Len(b.event) >= 1, "event-empty">>,          \* an explicitly empty list is not part of the domain
+  <<Has(b, "event") => \A i \in 1..Len(b.event) : b.event[i] \in V0Events, "event-unknown">>,
+  <<Has(b, "objectName") => IsStr(b.objectName), "objectName-type">>,
+  <<Has(b, "jqFilter") => IsStr(b.jqFilter), "jqFilter-type">>,
+  <<Has(b, "allowFailure") => IsBool(b.allowFailure), "allowFailure-type">>,
+  <<Has(b, "selector") => LabelSelOK(b.selector), "selector-invalid">>,
+  <<Has(b, "namespaceSelector") => NsSelV0OK(b.namespaceSelector), "namespaceSelector-invalid">> >>)
+
+ItemsFault(doc, f, Check(_)) ==      \* an array section of the legacy format: every item valid
+  IF ~Has(doc, f) THEN "ok"
+  ELSE LET bad == {i \in 1..Len(doc[f]) : Check(doc[f][i]) # "ok"}
+       IN IF bad = {} THEN "ok"
+          ELSE LET i == CHOOSE i \in bad : \A j \in bad : i <= j IN "v0/" \o f \o "/" \o Check(doc[f][i])
+
+GrammarFaultV0(doc) ==
+  LET parts == <<
+        IF DOMAIN doc \subseteq V0TopFields THEN "ok" ELSE "v0/top/unknown-field",
+        IF DOMAIN doc # {} THEN "ok" ELSE "v0/top/empty",
+        IF Has(doc, "onStartup") /\ ~IsInt(doc.onStartup) THEN "v0/onStartup/type" ELSE "ok",
+        ItemsFault(doc, "schedule", ScheduleV0Fault),
+        ItemsFault(doc, "onKubernetesEvent", KubeV0Fault) >>
+      bad == {i \in 1..Len(parts) : parts[i] # "ok"}
+  IN IF bad = {} THEN "ok" ELSE parts[CHOOSE i \in bad : \A j \in bad : i <= j]
+
+EffScheduleV0(b) ==
+  [name |-> Get(b, "name", "schedule"), crontab |-> b.crontab, queue |-> "main",
+   allowFailure |-> Bool(Get(b, "allowFailure", "@false")), group |-> "", include |-> <<>>]
+
+EffKubeV0(b) ==
+  [name |-> Get(b, "name", "onKubernetesEvent"), kind |-> b.kind, apiVersion |-> "",
+   events |-> CanonEvents(IF Has(b, "event") THEN {V0EventName(e) : e \in Range(b.event)} ELSE AllEvents),
+   sync |-> FALSE, keep |-> TRUE,
+   jqFilter |-> Get(b, "jqFilter", ""), queue |-> "main",
+   allowFailure |-> Bool(Get(b, "allowFailure", "@false")), group |-> "", include |-> <<>>]
+  @@ (IF Has(b, "objectName") THEN One("nameSelector", [matchNames |-> <<b.objectName>>]) ELSE <<>>)
+  @@ (IF Has(b, "selector") THEN One("labelSelector", b.selector) ELSE <<>>)
+  @@ (IF Has(b, "namespaceSelector") /\ Has(b.namespaceSelector, "matchNames")
+      THEN One("namespace", [nameSelector |-> [matchNames |-> b.namespaceSelector.matchNames]]) ELSE <<>>)
+
+---------------------------------------------------------------------------------------------------
 (* names, groups, snapshots.  Only evaluated on documents whose grammar is ok. *)
 
 Kubes(doc)    == Get(doc, "kubernetes", <<>>)
@@ -283,7 +367,8 @@ HookNameFault(doc) ==
   IN IF \E i, j \in 1..Len(vs) : i # j /\ vs[i].name = vs[j].name THEN "kubernetesValidating/duplicate-name" ELSE "ok"
 
 RejectReason(doc) ==
-  IF GrammarFault(doc) # "ok" THEN GrammarFault(doc)
+  IF IsV0(doc) THEN GrammarFaultV0(doc)
+  ELSE IF GrammarFault(doc) # "ok" THEN GrammarFault(doc)
   ELSE IF IncludeFault(doc) # "ok" THEN IncludeFault(doc)
   ELSE HookNameFault(doc)
 
@@ -317,8 +402,17 @@ EffConversion(doc, b) ==
 
 Map(s, Op(_)) == [i \in 1..Len(s) |-> Op(s[i])]
 
+EffectiveV0(doc) ==
+  [schedules  |-> Map(Get(doc, "schedule", <<>>), EffScheduleV0),
+   kubernetes |-> Map(Get(doc, "onKubernetesEvent", <<>>), EffKubeV0),
+   validating |-> <<>>, mutating |-> <<>>, conversion |-> <<>>]
+  @@ (IF Has(doc, "onStartup")
+      THEN One("onStartup", [name |-> "onStartup", order |-> IntVal(doc.onStartup), allowFailure |-> FALSE])
+      ELSE <<>>)
+
 Effective(doc) ==
   IF RejectReason(doc) # "ok" THEN "reject"
+  ELSE IF IsV0(doc) THEN EffectiveV0(doc)
   ELSE [schedules  |-> Map(Get(doc, "schedule", <<>>), LAMBDA b : EffSchedule(doc, b)),
         kubernetes |-> Map(Get(doc, "kubernetes", <<>>), LAMBDA b : EffKube(doc, b)),
         validating |-> Map(Get(doc, "kubernetesValidating", <<>>), LAMBDA b : EffAdmission(doc, b)),
@@ -482,6 +576,29 @@ Faults(doc) ==
   \cup SectFaults(doc, "kubernetesMutating", LAMBDA d, i : AdmissionFaults(d, "kubernetesMutating", i))
   \cup SectFaults(doc, "kubernetesCustomResourceConversion", ConversionFaults)
 
+(* single-fault mutations of a legacy document: the classes the statement names that exist in that format *)
+V0SchedFaults(doc, i) ==
+  { <<"v0/schedule/crontab-missing", DelItem(doc, "schedule", i, "crontab")>>,
+    <<"v0/schedule/crontab-garbage", SetItem(doc, "schedule", i, "crontab", "every day at noon")>>,
+    <<"v0/schedule/crontab-too-few-fields", SetItem(doc, "schedule", i, "crontab", "* * *")>>,
+    <<"v0/schedule/crontab-out-of-range", SetItem(doc, "schedule", i, "crontab", "61 * * * *")>>,
+    <<"v0/schedule/crontab-zero-step", SetItem(doc, "schedule", i, "crontab", "*/0 * * * *")>>,
+    <<"v0/schedule/allowFailure-string", SetItem(doc, "schedule", i, "allowFailure", "yes")>> }
+
+V0KubeFaults(doc, i) ==
+  { <<"v0/onKubernetesEvent/event-unknown", SetItem(doc, "onKubernetesEvent", i, "event", <<"add", "create">>)>>,
+    <<"v0/onKubernetesEvent/event-v1-name", SetItem(doc, "onKubernetesEvent", i, "event", <<"Added">>)>>,
+    <<"v0/onKubernetesEvent/allowFailure-string", SetItem(doc, "onKubernetesEvent", i, "allowFailure", "yes")>> }
+
+FaultsV0(doc) ==
+  { <<"v0/top/unknown-field", Set(doc, "foo", "@n1")>>,
+    <<"v0/top/unknown-field-v1-key", Set(doc, "kubernetes", <<[kind |-> "Pod"]>>)>>,
+    <<"v0/version/unsupported", Set(doc, "configVersion", "v0")>>,
+    <<"v0/onStartup/string", Set(doc, "onStartup", "first")>>,
+    <<"v0/onStartup/bool", Set(doc, "onStartup", "@true")>> }
+  \cup SectFaults(doc, "schedule", V0SchedFaults)
+  \cup SectFaults(doc, "onKubernetesEvent", V0KubeFaults)
+
 ---------------------------------------------------------------------------------------------------
 (* the bounded document domain, in strata *)
 
@@ -564,6 +681,38 @@ DocsHooks == {V1 @@ Section("kubernetes", ks) @@ h @@ Section("schedule", ss) :
                 ks \in SeqsUpTo(K2, 0, 2), h \in HookParts,
                 ss \in {<<>>, <<[crontab |-> "* * * * *", group |-> "g"]>>}}
 
+(* v0kube / v0sched: legacy documents (no configVersion) with every option of that format *)
+KV0 == MergeAll(<<{[kind |-> "pod"]}, Opt("name", {"monitor pods"}),
+                  Opt("event", {<<"add">>, <<"update", "delete">>, <<"delete", "update", "add">>}),
+                  Opt("selector", {[matchLabels |-> [myLabel |-> "myLabelValue"]],
+                                   [matchExpressions |-> <<[key |-> "tier", operator |-> "In", values |-> <<"cache">>]>>]}),
+                  Opt("objectName", {"pod-0"}),
+                  Opt("namespaceSelector", {[any |-> "@true"], [matchNames |-> <<"default", "proj-stage">>],
+                                            [matchNames |-> <<"default">>, any |-> "@false"]}),
+                  Opt("jqFilter", {".metadata.labels"}), Opt("allowFailure", BoolLit)>>)
+(* two bindings with independent option sets (an option of one binding must not leak into the other) *)
+KV0Small == MergeAll(<<{[kind |-> "pod"], [kind |-> "configmap"]}, Opt("name", {"monitor pods"}), Opt("event", {<<"update">>}),
+                       Opt("objectName", {"pod-0"}), Opt("allowFailure", {"@true"})>>)
+DocsV0Kube == {o @@ [onKubernetesEvent |-> <<k>>] : k \in KV0, o \in Opt("onStartup", {"@n5"})}
+         \cup {[onKubernetesEvent |-> <<k1, k2>>] : k1 \in KV0Small, k2 \in KV0Small}
+
+SV0 == MergeAll(<<{[crontab |-> x] : x \in GoodCrontab}, Opt("name", {"every"}), Opt("allowFailure", BoolLit)>>)
+SV0Second == MergeAll(<<{[crontab |-> "*/5 * * * *"]}, Opt("name", {"other"}), Opt("allowFailure", {"@true"})>>)
+SchedSeqsV0 == {<<>>} \cup {<<s>> : s \in SV0} \cup {<<s, t>> : s \in SV0, t \in SV0Second}
+DocsV0Sched == {Section("schedule", ss) @@ o @@ Section("onKubernetesEvent", ks) :
+                  ss \in SchedSeqsV0, o \in Opt("onStartup", {"@n5"}),
+                  ks \in {<<>>, <<[kind |-> "pod"]>>, <<[kind |-> "pod", name |-> "monitor pods", allowFailure |-> "@true"]>>}} \ {<<>>}
+
+FaultBaseV0 == {
+  [onStartup |-> "@n5",
+   schedule |-> <<[name |-> "every", crontab |-> "*/5 * * * *", allowFailure |-> "@true"], [crontab |-> "* * * * *"]>>,
+   onKubernetesEvent |-> <<[name |-> "monitor pods", kind |-> "pod", event |-> <<"add", "delete">>, objectName |-> "pod-0",
+                            selector |-> [matchLabels |-> [myLabel |-> "myLabelValue"]],
+                            namespaceSelector |-> [matchNames |-> <<"default">>], jqFilter |-> ".metadata.labels",
+                            allowFailure |-> "@true"], [kind |-> "configmap"]>>],
+  [schedule |-> <<[crontab |-> "* * * * *"]>>],
+  [onKubernetesEvent |-> <<[kind |-> "pod"]>>] }
+
 (* fault: base documents to which every single-fault mutation is applied *)
 FullKube == [name |-> "a", kind |-> "Pod", apiVersion |-> "v1", executeHookOnEvent |-> <<"Modified">>,
              executeHookOnSynchronization |-> "@false", keepFullObjectsInMemory |-> "@false",
@@ -590,6 +739,7 @@ FaultBase == {
          kubernetesValidating |-> <<[name |-> "val.example.com", rules |-> Rules]>>] }
 
 Pick(S) == IF SampleK = 0 \/ Cardinality(S) <= SampleK THEN S ELSE RandomSubset(SampleK, S)
+PickHalf(S) == IF SampleK = 0 \/ 2 * Cardinality(S) <= SampleK THEN S ELSE RandomSubset(SampleK \div 2, S)
 
 Case(st, f, d, b) == [stratum |-> st, fault |-> f, doc |-> d, base |-> b, why |-> RejectReason(d), eff |-> Effective(d)]
 
@@ -603,6 +753,10 @@ Init == \/ FromStratum("kopt", DocsKOpt)
         \/ FromStratum("cross2", DocsCross2)
         \/ FromStratum("sched", DocsSched)
         \/ FromStratum("hooks", DocsHooks)
+        \/ "v0kube" \in Strata /\ \E d \in PickHalf(DocsV0Kube) : c = Case("v0kube", "none", d, d)
+        \/ FromStratum("v0sched", DocsV0Sched)
+        \/ "v0fault" \in Strata /\ \E b \in FaultBaseV0 : c = Case("v0fault", "none", b, b)
+        \/ "v0fault" \in Strata /\ \E b \in FaultBaseV0 : \E f \in FaultsV0(b) : c = Case("v0fault", f[1], f[2], b)
         \/ "fault" \in Strata /\ \E b \in FaultBase : c = Case("fault", "none", b, b)
         \/ "fault" \in Strata /\ \E b \in FaultBase : \E f \in Faults(b) : c = Case("fault", f[1], f[2], b)
 Next == UNCHANGED c
@@ -615,11 +769,11 @@ Eff == c.eff
 Loaded == c.why = "ok"
 
 (* the generator only produces documents of the documented grammar *)
-DomainWellFormed == c.fault = "none" => GrammarFault(c.doc) = "ok"
+DomainWellFormed == c.fault = "none" => (IF IsV0(c.doc) THEN GrammarFaultV0(c.doc) ELSE GrammarFault(c.doc)) = "ok"
 
 (* exactly the declared bindings, in declared order, every declared option in the effective configuration *)
 FaithfulLoad ==
-  Loaded =>
+  Loaded /\ ~IsV0(c.doc) =>
     LET ks == Get(c.doc, "kubernetes", <<>>)  ss == Get(c.doc, "schedule", <<>>) IN
     /\ Len(Eff.kubernetes) = Len(ks) /\ Len(Eff.schedules) = Len(ss)
     /\ Len(Eff.validating) = Len(Get(c.doc, "kubernetesValidating", <<>>))
@@ -654,7 +808,7 @@ FaithfulLoad ==
 
 (* the documented defaults *)
 Defaults ==
-  Loaded =>
+  Loaded /\ ~IsV0(c.doc) =>
     LET ks == Get(c.doc, "kubernetes", <<>>)  ss == Get(c.doc, "schedule", <<>>) IN
     /\ \A i \in 1..Len(ks) :
          LET b == ks[i]  e == Eff.kubernetes[i] IN
@@ -677,6 +831,36 @@ Defaults ==
          /\ ~Has(b, "sideEffects") => e.sideEffects = "None"
          /\ ~Has(b, "timeoutSeconds") => e.timeoutSeconds = 10
 
+(* the legacy format: exactly the declared bindings in declared order, every declared option in the effective
+   configuration, the defaults of the statement for everything not declared *)
+LegacyLoad ==
+  Loaded /\ IsV0(c.doc) =>
+    LET ks == Get(c.doc, "onKubernetesEvent", <<>>)  ss == Get(c.doc, "schedule", <<>>) IN
+    /\ Len(Eff.kubernetes) = Len(ks) /\ Len(Eff.schedules) = Len(ss)
+    /\ Eff.validating = <<>> /\ Eff.mutating = <<>> /\ Eff.conversion = <<>> /\ ~Has(Eff, "settings")
+    /\ Has(Eff, "onStartup") <=> Has(c.doc, "onStartup")
+    /\ Has(Eff, "onStartup") => Eff.onStartup.name = "onStartup" /\ Eff.onStartup.allowFailure = FALSE
+    /\ \A i \in 1..Len(ks) :
+         LET b == ks[i]  e == Eff.kubernetes[i] IN
+         /\ e.kind = b.kind /\ e.queue = "main" /\ e.keep = TRUE /\ e.sync = FALSE /\ e.group = "" /\ e.include = <<>>
+         /\ e.name = (IF Has(b, "name") THEN b.name ELSE "onKubernetesEvent")
+         /\ e.allowFailure = (IF Has(b, "allowFailure") THEN Bool(b.allowFailure) ELSE FALSE)
+         /\ e.jqFilter = (IF Has(b, "jqFilter") THEN b.jqFilter ELSE "")
+         /\ Has(b, "event") => Cardinality(Range(e.events)) = Cardinality(Range(b.event))
+         /\ ~Has(b, "event") => e.events = <<"Added", "Modified", "Deleted">>
+         /\ Has(e, "nameSelector") <=> Has(b, "objectName")
+         /\ Has(b, "objectName") => e.nameSelector.matchNames = <<b.objectName>>
+         /\ Has(e, "labelSelector") <=> Has(b, "selector")
+         /\ Has(b, "selector") => e.labelSelector = b.selector
+         /\ Has(e, "namespace") <=> (Has(b, "namespaceSelector") /\ ~Bool(Get(b.namespaceSelector, "any", "@false")))
+         /\ Has(e, "namespace") => e.namespace.nameSelector.matchNames = b.namespaceSelector.matchNames
+         /\ ~Has(e, "fieldSelector")
+    /\ \A i \in 1..Len(ss) :
+         LET b == ss[i]  e == Eff.schedules[i] IN
+         /\ e.crontab = b.crontab /\ e.queue = "main" /\ e.group = "" /\ e.include = <<>>
+         /\ e.name = (IF Has(b, "name") THEN b.name ELSE "schedule")
+         /\ e.allowFailure = (IF Has(b, "allowFailure") THEN Bool(b.allowFailure) ELSE FALSE)
+
 (* every single-fault mutation of a loadable document is rejected, and it is the only fault *)
 FaultRejected ==
   c.fault # "none" => /\ c.why # "ok"
@@ -686,7 +870,7 @@ FaultRejected ==
    either declared by the binding or comes from its group; each name resolves to exactly one binding *)
 EffBindings == Eff.kubernetes \o Eff.schedules \o Eff.validating \o Eff.mutating \o Eff.conversion
 GroupSnapshots ==
-  Loaded =>
+  Loaded /\ ~IsV0(c.doc) =>
     LET ds == AllBindings(c.doc)  es == EffBindings IN
     /\ Len(ds) = Len(es)
     /\ \A i \in 1..Len(ds) :
